@@ -60,6 +60,7 @@ def _build(cfg, old):
                 names.append(v)
         if not cfg['obj_strict']:
             c.note = 'attribute'
+            c.weights = np.array([0.25, 0.75])      # an attribute that happens to be an array is an attribute all the same
         return c, names
     M = _model_class()
     m = M(old, strict=cfg['obj_strict'])
@@ -163,6 +164,11 @@ def scenario(cfg, src) -> List[str]:
             bad.append(f'lag/lead settings or names not carried over: {(res.lags, res.leads)}')
     elif not cfg['obj_strict'] and getattr(res, 'note', None) != 'attribute':
         bad.append('attribute not carried over')
+    elif not cfg['obj_strict'] and not (isinstance(getattr(res, 'weights', None), np.ndarray) and np.array_equal(res.weights, [0.25, 0.75])
+                                      and res.weights is not obj.weights):
+        bad.append('array-valued attribute not carried over (as a copy)')
+    if res.strict != obj.strict:
+        bad.append(f'strict setting of the result {res.strict} != {obj.strict} of the original')
     twin = cfg.get('twin')
     for v in names:
         arr, old_arr = res[v], before[v]
